@@ -13,6 +13,11 @@ import expr
 BM = "simplicity::bit_machine::BitMachine::"
 EXEC = BM + "exec_with_tracker"
 CALLSTACK = EXEC + "::CallStack"
+
+
+def is_callstack(path):
+    """the interpreter's deferred-action enum, wherever in the bit_machine module it is declared"""
+    return isinstance(path, str) and path.startswith("simplicity::bit_machine::") and path.endswith("::CallStack")
 MACHINE_OPS = {"new_write_frame", "move_write_frame_to_read", "drop_read_frame", "write_bit", "skip", "copy", "fwd",
                "back", "write_bytes", "write_value", "write_u8", "exec_jet", "read_bit"}
 PUSH_OP = {"Goto": "run", "MoveWriteFrameToRead": "move_write_frame_to_read", "DropReadFrame": "drop_read_frame",
@@ -126,7 +131,7 @@ def extract(F):
                         ops.append((name, args))
                     elif name == "push" and "Vec" in cal and len(t["args"]) == 2:
                         item = T.operand(t["args"][1])
-                        if item[0] == "adt" and item[1] == CALLSTACK:
+                        if item[0] == "adt" and is_callstack(item[1]):
                             pushes.append((item[2], list(item[4])))
                     elif name == "from_residual":
                         err = ("residual",)
@@ -174,7 +179,7 @@ def extract(F):
     unw = {}
     for b in fn.rpo():
         si3 = switch_info(fn, b)
-        if si3 and si3[1] == CALLSTACK:
+        if si3 and is_callstack(si3[1]):
             for v, tgt in si3[2].items():
                 reg = fn.dominated_by(tgt)
                 names = []
